@@ -81,7 +81,7 @@ def run(a):
         "gc_preserves_outcomes is proved for the store half (a GC command keeps reads >= safe point, records above it and the invariant, Proofs/MvccTemporal); the cross-key protocol half is validated by the store-level audit only",
         "async-commit locks are not generated (mocktikv has no async commit); pessimistic locks are reported by the mock without lock type",
         "cancellation: schedules are forced on the real runner through handler gates and PD/RPC wrappers (polling waits, no sleeps as synchronisation); "
-        "`runc before|between` are repeated 24 times because their outcome depends on Go's random choice among ready select cases (known finding "
+        "`runc before|between` are repeated 24 times because their outcome depends on Go's random choice among ready select cases (the defect found there is repaired: fixed entry "
         "C14-runonrange-nil-after-producer-abandons); `inh` ops are skipped by both sides when neither `all remaining sub-ranges are in handlers` nor "
         "`a sub-range is queued behind the busy workers` can be established from outside",
         "which worker handles which sub-range is not modelled: with a failing handler and more than one worker only `error reported` and "
